@@ -6,6 +6,7 @@ import (
 	"go/parser"
 	"go/token"
 	"go/types"
+	"os"
 	"strings"
 
 	"verif/checker/internal/lin"
@@ -781,10 +782,17 @@ var GammaTable = []gammaEntry{
 	{"trend.TsiStrategy", "r.Signal.Period >= 1", "signal EMA period"},
 }
 
+// debugSkipGamma (developer aid, VERIF_SKIP_GAMMA="Type|Rel"): analyse without one Γ entry to see
+// which rules really need it.
+var debugSkipGamma = os.Getenv("VERIF_SKIP_GAMMA")
+
 func (it *Interp) applyTypeGamma(o *Object) {
 	tn := o.TypeName()
 	for _, g := range GammaTable {
 		if g.Type != tn {
+			continue
+		}
+		if it.SkipGamma[g.Type] || it.SkipGamma[g.Type+"|"+g.Rel] || debugSkipGamma == g.Type+"|"+g.Rel {
 			continue
 		}
 		e, err := parser.ParseExpr(g.Rel)
